@@ -4,6 +4,7 @@ from __future__ import annotations
 
 import asyncio
 import functools
+from datetime import timedelta
 
 from redress import (
     AsyncPolicy,
@@ -22,7 +23,7 @@ from redress import (
 from . import loop as simloop
 from . import seams
 from .clock import SimClock
-from .env import RAISE_CODE, CallState, Env, FalsySpyBreaker, RecBreaker, RecBudget, SpyBreaker, fnum
+from .env import RAISE_CODE, CallState, Env, FalsySpyBreaker, GateRecBreaker, RecBreaker, RecBudget, SpyBreaker, fnum
 
 SYNC_ENTRIES = ["Retry", "Policy", "RetryPolicy", "Retry.context", "Policy.context", "RetryPolicy.context",
                 "decorator", "Retry.from_config", "RetryPolicy.from_config"]
@@ -92,10 +93,11 @@ class Built:
         b = cfg.get("budget")
         if b:
             self.budget = RecBudget(env, max_retries=b["max"], window_s=b["window_us"] / 1e6)
+            env.shared_budget = self.budget
         br = cfg.get("breaker")
         if br:
             if br.get("kind") == "spy":
-                self.breaker = FalsySpyBreaker(env) if br.get("falsy") else SpyBreaker(env)
+                self.breaker = (FalsySpyBreaker if br.get("falsy") else SpyBreaker)(env, reject=br.get("reject") or ())
             else:
                 kw = dict(failure_threshold=br.get("failure_threshold", 5),
                           window_s=br.get("window_us", 60_000_000) / 1e6,
@@ -104,7 +106,7 @@ class Built:
                     kw["trip_on"] = {ErrorClass[c] for c in br["trip_on"]}
                 if br.get("class_thresholds"):
                     kw["class_thresholds"] = {ErrorClass[c]: n for c, n in br["class_thresholds"].items()}
-                self.breaker = RecBreaker(env, **kw)
+                self.breaker = (GateRecBreaker if br.get("falsy") else RecBreaker)(env, **kw)
 
         bs_async = is_async and place.get("bs_async", False)     # False | True (coroutine) | "aw" (non-coroutine awaitable)
         sl_kind = place.get("sleeper_kind", "async") if is_async else "sync"   # sync | async | aw
@@ -208,20 +210,35 @@ class Built:
                 sleep=rkw["sleep"], before_sleep=rkw["before_sleep"], sleeper=rkw["sleeper"], budget=rkw["budget"])
             target = (R if base == "Retry" else RP).from_config(rc, classifier=env.classifier)
         elif base in ("Retry", "Policy", "RetryPolicy"):
-            # budget_late: the policy is built without a budget and the shared budget is attached afterwards
-            late = bool(self.place.get("budget_late")) and rkw.get("budget") is not None
-            kw = dict(rkw, budget=None) if late else rkw
+            # settings attached / re-tuned on the live object after construction (through the entry object itself:
+            # the facade forwards to its retry component, a Policy is re-tuned on policy.retry):
+            #   collaborators (budget, sleep, before_sleep, sleeper, result_classifier, max_unknown_attempts) are left
+            #   out of the constructor and assigned afterwards; deadline / max_attempts are constructed with a decoy
+            #   value and then set to the scenario's value
+            late = set(self.place.get("late") or [])
+            if self.place.get("budget_late"):
+                late.add("budget")
+            kw = dict(rkw)
+            assign = {}
+            for name in ("budget", "sleep", "before_sleep", "sleeper", "result_classifier", "max_unknown_attempts"):
+                if name in late and rkw.get(name) is not None:
+                    kw[name] = None
+                    assign[name] = rkw[name]
+            if "deadline" in late:
+                kw["deadline_s"] = 7777.0
+                assign["deadline"] = timedelta(seconds=rkw["deadline_s"])
+            if "max_attempts" in late:
+                kw["max_attempts"] = max(rkw["max_attempts"], 0) + 3
+                assign["max_attempts"] = rkw["max_attempts"]
             if base == "Retry":
                 target = R(**kw, **att_pol)
             elif base == "Policy":
                 target = P(retry=R(**kw, **att_pol), circuit_breaker=self.breaker)
             else:
                 target = RP(**kw)
-            if late:
-                if base == "Policy":
-                    target.retry.budget = rkw["budget"]
-                else:
-                    target.budget = rkw["budget"]
+            obj = target.retry if base == "Policy" else target
+            for name, value in assign.items():
+                setattr(obj, name, value)
         elif entry == "decorator":
             dkw = dict(rkw)
             dkw.update(on_metric=self.call_kw["on_metric"], on_log=self.call_kw["on_log"],
